@@ -321,6 +321,8 @@ class C04Property:
         g = np.random.default_rng(common.rng_for(PROP_ID, seed, "oracle").getrandbits(63))
         new_found = 0
         summary = []
+        built_cache: dict = {}
+        beyond90 = 0
 
         def report(sig, replay):
             """known classes print KNOWN-FINDING; new ones become VIOLATION replays (capped, all listed in the evidence)."""
@@ -337,7 +339,12 @@ class C04Property:
             t0 = time.time()
             entry = {"case": case.id}
             try:
-                b = orc.build(case)
+                import dataclasses
+
+                ck = (case.reaction, case.keep, case.alignment)
+                if ck not in built_cache:
+                    built_cache[ck] = orc.build(case)
+                b = dataclasses.replace(built_cache[ck], case=case)
             except Exception as e:  # noqa: BLE001  the real code cannot formulate/lambdify the model
                 err = "".join(traceback.format_exception(type(e), e, e.__traceback__))[-1500:]
                 sig = {"class": "the real code raised while the model was formulated", "case": case.id}
@@ -360,7 +367,9 @@ class C04Property:
                 continue
             key = (case.id, tuple(entry["topologies"])) if r["n"] > 0 else None
             chk.count(key, n=2 * r["n"])
+            beyond90 += r.get("wigner_beyond_90deg", 0)
             entry.update({"worst_relative_change": r["worst"], "events": r["n"], "skipped": r["skipped"],
+                          "wigner_rotation_beyond_90deg_events": r.get("wigner_beyond_90deg", 0),
                           "seconds": round(time.time() - t0, 1)})
             if r["n"] < max(1, (r["n"] + r["skipped"]) // 2):
                 sig = {"class": "non-finite or vanishing intensity on physical events", "case": case.id}
@@ -380,6 +389,7 @@ class C04Property:
                             "worst_relative_change": r["worst"]})
             summary.append(entry)
         chk.info("oracle_cases", summary)
+        chk.info("events_with_a_wigner_rotation_beyond_90deg", beyond90)
         if chk.broken and new_found == 0:
             for bk in chk.broken:
                 chk.unexplained(bk.get("theorem") or bk.get("what"), bk)
@@ -387,7 +397,10 @@ class C04Property:
         chk.info("input_distribution", {
             "oracle": "events: sequential two-body phase space in the initial-state rest frame (unweighted, numpy), "
                       f"{n_events} per case; rotations: Haar-random SO(3) + 4 fixed axis rotations (incl. R_y(0.7)); "
-                      "couplings: complex standard normal; cases = corpus reaction x resonance subset x alignment",
+                      "couplings: complex standard normal; cases = corpus reaction x resonance subset x alignment; plus the family "
+                      "`lowpair:i,j` (pair mass in the lowest 12 % of its range on the synthetic 20 GeV parent: fast light resonance and "
+                      "daughter, Wigner rotations beyond 90 degrees — counted in events_with_a_wigner_rotation_beyond_90deg)",
+            "alignment": "every final state of every corpus topology: the Wigner-D functions of formulate_rotation_chain (index and angle symbols)",
             "frames": "all topologies of the corpus reactions, all isobar topologies with 3,4 (thorough: 5) final states "
                       "and seeded relabellings of the final-state ids; every D-function of the corpus transitions",
             "translator": "angles uniform in (-pi, pi] + special values, |beta| < 1, random and axis-aligned vectors",
@@ -422,7 +435,7 @@ class C04Property:
 
 
 def _case_dict(case) -> dict:
-    return {"reaction": case.reaction, "keep": list(case.keep), "alignment": case.alignment}
+    return {"reaction": case.reaction, "keep": list(case.keep), "alignment": case.alignment, "events": case.events}
 
 
 def replay(rep: dict) -> int:
